@@ -73,6 +73,10 @@ class ConstantFolder(BlockPass):
             b = self.eval_const(value.b)
             assert a.ty is b.ty
             assert a.ty is value.ty
+            if value.operation in ("<<", ">>") and not (
+                0 <= b.value < value.ty.bits
+            ):
+                raise ValueError("shift amount out of range")
             res = self.ops[value.operation](value.ty, a.value, b.value)
             return ir.Const(res, "new_fold", a.ty)
         elif isinstance(value, ir.Cast):
